@@ -135,6 +135,14 @@ def setFormatAndEncodings (s : St) : St :=
   if ! s.supports msgSetEncodings then s else
   s.write (setEncodingsMsg (encodingList s.encs s.cursor true))
 
+/-! ## length caps (rfbclient.c:418, 1215, 2598) -/
+
+/-- a 32-bit length field is accepted only up to `cap` (`if (len > 1<<20) … return FALSE`) -/
+def capLen (cap v : Nat) : Option Nat := if v > cap then none else some v
+
+/-- ServerCutText: `ilen = (int32)length; length = ilen < 0 ? -ilen : ilen`, then the cap -/
+def cutTextLen (v : Nat) : Option Nat := capLen cutTextCap (if v < 2 ^ 31 then v else 2 ^ 32 - v)
+
 /-! ## decompressor oracle -/
 
 def popZ (id : Nat) (z : Bytes) : List (Nat × Bytes × Bytes) → Option (Bytes × List (Nat × Bytes × Bytes))
@@ -460,10 +468,11 @@ def handleMessage (s : St) (bs : Bytes) : Res (St × Bytes) := do
     match readU32 (hd.drop 3) with
     | none => .no
     | some (v, _) =>
-      let len := if v < 2 ^ 31 then v else 2 ^ 32 - v       -- ilen < 0 ? -ilen : ilen
-      if len > cutTextCap then .no else do
-      let (txt, bs) ← ofOpt (takeN len bs)
-      pure (s.log s!"cut:{len}:{hex8 (crc32 txt)}", bs)
+      match cutTextLen v with
+      | none => .no
+      | some len => do
+        let (txt, bs) ← ofOpt (takeN len bs)           -- malloc(len+1), ReadFromRFBServer(len)
+        pure (s.log s!"cut:{len}:{hex8 (crc32 txt)}", bs)
   else if t = 4 ∨ t = 15 then do                            -- rfbResizeFrameBuffer / PalmVNC resize
     let (hd, bs) ← ofOpt (takeN (if t = 4 then 5 else 11) bs)
     let o := if t = 4 then 1 else 5
@@ -542,9 +551,11 @@ def initClient (s : St) (bs : Bytes) : Res (St × Bytes) := do
     let gmax := (si.getD 10 0).toNat * 256 + (si.getD 11 0).toNat
     match readU32 (si.drop 20) with
     | none => .no
-    | some (nlen, _) =>
-      if nlen > nameCap then .no else do
-      let (name, bs) ← ofOpt (takeN nlen bs)
+    | some (nlen0, _) =>
+      match capLen nameCap nlen0 with
+      | none => .no
+      | some nlen => do
+      let (name, bs) ← ofOpt (takeN nlen bs)             -- malloc(nameLength+1)
       let s := { s with siGreenMax := gmax, name := name }
       let s ← resize s w h
       let s := setFormatAndEncodings s
